@@ -10,7 +10,7 @@ from common import bits, unbits, fb, close, canon_hash
 from props import _mc as M
 
 ID = "C16"
-SECTIONS = ["mc"]
+SECTIONS = ["mc", "mcwalk"]
 LEAN_MODULES = ["QExPy.Props.C16"]
 THEOREMS = ["QExPy.C16_argmax", "QExPy.C16_walk_spec", "QExPy.C16_walk_edges",
             "QExPy.C16_mode_result", "QExPy.C16_error_nonneg", "QExPy.C16_init_generated",
